@@ -264,7 +264,7 @@ cat_status cat_service(struct cat_object *self)
 __CPROVER_requires(self == &h_obj && inv_wf(self) && inv_ring(self) && inv_ev(self) && inv_excl(self) && inv_hold(self) && inv_live(self))
 /* standing assumption: size_t counters do not wrap (a line is shorter than 2^64 bytes) */
 __CPROVER_requires(self->length < (size_t)-1)
-__CPROVER_assigns(*self, E, EL, G_EV, G_HES, G_UBYTE, g_sat, g_ndig, g_size, g_nesc, g_src, g_esc, __CPROVER_object_whole(h_buf), __CPROVER_object_whole(h_vdata) SERVICE_EXTRA_ASSIGNS)
+__CPROVER_assigns(*self, E, EL, G_EV, G_HES, G_UBYTE, __CPROVER_object_whole(g_typed), g_sat, g_ndig, g_size, g_nesc, g_src, g_esc, __CPROVER_object_whole(h_buf), __CPROVER_object_whole(h_vdata) SERVICE_EXTRA_ASSIGNS)
 /* [INV:wf]              */ __CPROVER_ensures(inv_wf(self))
 /* [INV:ring]            */ __CPROVER_ensures(inv_ring(self))
 /* [INV:ev]              */ __CPROVER_ensures(inv_ev(self))
@@ -298,6 +298,16 @@ __CPROVER_assigns(*self, E, EL, G_EV, G_HES, G_UBYTE, g_sat, g_ndig, g_size, g_n
 /* [C10:loop-calls]      */ __CPROVER_ensures((RAN && p_loop_kind(g_old.state) >= 0) ==> AT_HCALLS == 1)
 /* [C02,C09:var-callback-current] */ __CPROVER_ensures((AT_VWCALLS + AT_VRCALLS > 0) ==> (AT_VWCALLS + AT_VRCALLS == 1 && E.v_var == g_old.var && ((AT_VWCALLS == 1 && g_old.state == CAT_STATE_PARSE_WRITE_ARGS) || (AT_VRCALLS == 1 && g_old.state == CAT_STATE_FORMAT_READ_ARGS))))
 /* [C04,C05,C08,C09:vars-frame] */ __CPROVER_ensures(g_old.state == CAT_STATE_PARSE_WRITE_ARGS ? p_vdata_unchanged_except(p_cmd_index(g_old.cmd)) : p_vdata_unchanged())
+/* ---- C02/C09: name resolution against the statement's own definition (p_spec / p_resolve over the ghost typed text) ---- */
+#define SEARCH_STEP (RAN && g_old.state == CAT_STATE_SEARCH_COMMAND)
+/* [C02,C09:search-found]  */ __CPROVER_ensures((SEARCH_STEP && self->state == CAT_STATE_COMMAND_FOUND) ==> (p_resolve(g_old.length) < H_NC && self->cmd == &h_cmds[p_resolve(g_old.length)]))
+/* [C02,C09:search-none]   */ __CPROVER_ensures((SEARCH_STEP && (self->state == CAT_STATE_COMMAND_NOT_FOUND || self->state == CAT_STATE_ERROR)) ==> p_resolve(g_old.length) == H_NC)
+/* [C02:search-states]     */ __CPROVER_ensures(SEARCH_STEP ==> (self->state == CAT_STATE_SEARCH_COMMAND || self->state == CAT_STATE_COMMAND_FOUND || self->state == CAT_STATE_COMMAND_NOT_FOUND || self->state == CAT_STATE_ERROR) && AT_HCALLS == 0)
+/* [C02:suffix]            */ __CPROVER_ensures((RAN && g_old.state == CAT_STATE_PARSE_COMMAND_CHAR && E.rd_avail && g_old.length > 0) ==> ((E.rd_ch == '?') ? (self->cmd_type == CAT_CMD_TYPE_READ && self->state == CAT_STATE_WAIT_READ_ACKNOWLEDGE) : (E.rd_ch == '=') ? (self->cmd_type == CAT_CMD_TYPE_WRITE && self->state == CAT_STATE_SEARCH_COMMAND) : (self->cmd_type == CAT_CMD_TYPE_RUN)))
+/* [C02:implicit-write]    */ __CPROVER_ensures((RAN && g_old.state == CAT_STATE_UPDATE_COMMAND_STATE && g_old.index + 1 == g_ncmds) ==> (p_implicit_hit_below(g_ncmds, g_old.length) ? (self->state == CAT_STATE_SEARCH_COMMAND && self->cmd_type == CAT_CMD_TYPE_WRITE) : self->state == CAT_STATE_PARSE_COMMAND_CHAR))
+#define KEEPS_CMD(st) ((st) == CAT_STATE_COMMAND_FOUND || (st) == CAT_STATE_PARSE_COMMAND_ARGS || (st) == CAT_STATE_WAIT_TEST_ACKNOWLEDGE || (st) == CAT_STATE_PARSE_WRITE_ARGS || (st) == CAT_STATE_FORMAT_READ_ARGS || (st) == CAT_STATE_FORMAT_TEST_ARGS || (st) == CAT_STATE_WRITE_LOOP || (st) == CAT_STATE_READ_LOOP || (st) == CAT_STATE_TEST_LOOP || (st) == CAT_STATE_RUN_LOOP || (st) == CAT_STATE_HOLD || (st) == CAT_STATE_AFTER_FLUSH_OK || (st) == CAT_STATE_AFTER_FLUSH_FORMAT_READ_ARGS || (st) == CAT_STATE_AFTER_FLUSH_FORMAT_TEST_ARGS || (((st) == CAT_STATE_FLUSH_IO_WRITE_WAIT || (st) == CAT_STATE_FLUSH_IO_WRITE) && g_old.write_state_after != CAT_STATE_PRINT_CMD))
+/* [C02,C09:cmd-stable]    */ __CPROVER_ensures((RAN && KEEPS_CMD(g_old.state)) ==> self->cmd == g_old.cmd)
+/* [C02:type-stable]       */ __CPROVER_ensures((RAN && KEEPS_CMD(g_old.state) && self->state != CAT_STATE_PRINT_CMD && !(g_old.state == CAT_STATE_PARSE_COMMAND_ARGS && self->state == CAT_STATE_WAIT_TEST_ACKNOWLEDGE)) ==> self->cmd_type == g_old.cmd_type)
 /* ---- C06: argument collection and hand-over ---- */
 #define PCA_BYTE   (RAN && g_old.state == CAT_STATE_PARSE_COMMAND_ARGS && E.rd_avail)
 #define PCA_TESTQ  (g_old.length == 0 && E.rd_ch == '?' && (g_old.cmd->test != NULL || p_has_vars(g_old.cmd)) && !g_old.cmd->implicit_write)
